@@ -67,8 +67,11 @@ func c07(e *Env) {
 		ks      string // model: keyspace in force ("" none)
 		pending *world.ClientReq
 		pendUse useSpec
+		stalled bool // a node stopped answering at some time while the pending USE was being decided
 		left    int
 	}
+	var stalledNode *world.Node // a node that answers nothing for a while (some runs)
+	var stallUntil time.Duration
 	st := make([]*cstate, len(f.clients))
 	for i := range st {
 		st[i] = &cstate{left: 10 + c.Choose("c07ops", 30)}
@@ -112,6 +115,14 @@ func c07(e *Env) {
 			s.ks = u.norm
 			useChecked++
 		case message.Error:
+			if s.stalled {
+				// A node did not answer while the session for this keyspace was being created: the USE
+				// may fail (connect time-out) with the proxy's own error. What the property demands then
+				// is that the previous keyspace stays in force, which the following requests show.
+				failedUses++
+				e.Res.Stats["probe.c07.use_failed_by_timeout"]++
+				return
+			}
 			if u.exists && !(u.norm == "ks4" && refuser >= 0) {
 				w.Violate("c07-use", "use-of-existing-keyspace-failed", fmt.Sprintf("%s: USE %s failed with %v although every backend has the keyspace", req.Client, u.text, m))
 				return
@@ -168,8 +179,18 @@ func c07(e *Env) {
 		}
 		w.Stat("oracle.c07.attempts_checked")
 	}
+	// some runs lose backend connections in the middle of the history (one node's, or all): the
+	// proxy replaces them, and the replacements must be in the keyspace of their session too
+	faultAt, opsDone := -1, 0
+	var pauseUntil time.Duration
+	if c.Choose("c07fault?", 2) == 1 {
+		faultAt = 4 + c.Choose("c07faultat", 24)
+	}
 	enabled := func() []int {
 		var out []int
+		if w.Now() < pauseUntil {
+			return nil // clients pause while the proxy reconnects (back-off timers need the clock)
+		}
 		for i, cl := range f.clients {
 			s := st[i]
 			if !cl.Connected() || s.left == 0 || s.pending != nil {
@@ -182,11 +203,58 @@ func c07(e *Env) {
 		}
 		return out
 	}
+	w.OnStep = func() {
+		if stalledNode != nil && w.Now() >= stallUntil {
+			stalledNode.Unstall()
+			stalledNode = nil
+		}
+	}
 	var en []int
 	w.Workload = func() int { en = enabled(); return len(en) }
 	w.DoWork = func(k int) {
 		i := en[k]
 		cl, s := f.clients[i], st[i]
+		opsDone++
+		useInFlight := false
+		for _, x := range st {
+			if x.pending != nil {
+				useInFlight = true
+			}
+		}
+		if opsDone == faultAt && useInFlight {
+			// Not while a USE is being decided: the pools of a session that is being created would
+			// lose their first connections, which ConnectSession tolerates (it then succeeds without
+			// any backend having seen the keyspace) - an observation noted in DESIGN.md section 10,
+			// outside what C07 states about fault-free USE.
+			faultAt++
+		}
+		if opsDone == faultAt && stalledNode == nil && c.Choose("c07stall?", 3) == 2 {
+			// instead of losing connections: one node answers nothing for a while (new sessions
+			// cannot complete their handshake with it and time out), then resumes
+			stalledNode = w.Nodes[c.Choose("c07stallnode", len(w.Nodes))]
+			stalledNode.Stalled = true
+			stallUntil = w.Now() + time.Duration(11+c.Choose("c07stalllen", 20))*time.Second
+			w.Logf("node %s: stall begins", stalledNode)
+			e.Res.Stats["probe.c07.node_stalled"]++
+			faultAt = -1
+		}
+		if opsDone == faultAt {
+			nodes := w.Nodes
+			if c.Choose("c07faultall", 3) != 0 {
+				nodes = []*world.Node{w.Nodes[c.Choose("c07faultnode", len(w.Nodes))]}
+			}
+			for _, n := range nodes {
+				for _, bc := range n.LiveConns() {
+					bc.Reset("fault: backend connections lost in the middle of the history")
+				}
+			}
+			pauseUntil = w.Now() + time.Duration(5+c.Choose("c07pause", 40))*time.Second
+			e.Res.Stats["probe.c07.connections_lost_and_replaced"]++
+			faultAt = -1
+			if c.Choose("c07faultagain", 3) == 2 {
+				faultAt = opsDone + 3 + c.Choose("c07faultat2", 10)
+			}
+		}
 		s.left--
 		if c.Choose("use?", 4) == 0 {
 			// a USE: the client waits for its answer before sending anything else
@@ -203,6 +271,7 @@ func c07(e *Env) {
 					text = "use " + u.text
 				}
 				s.pendUse = u
+				s.stalled = stalledNode != nil
 				s.pending = cl.Send("use", "", world.QueryMsg(text, primitive.ConsistencyLevelOne), nil)
 				return
 			}
